@@ -200,7 +200,12 @@ struct Runner
 {
   binlog::Session session;
   std::map<int, std::unique_ptr<binlog::SessionWriter>> writers;
-  std::vector<std::string> deferred;      // "w.k.hex" adds blocked on the mutex during consume
+  std::vector<std::string> deferred;      // actions of writers blocked on the mutex during consume: "a<w>.0.<hex>" or "c<w>"
+  bool blocked(int w) const
+  {
+    for (const std::string& a : deferred) { const int aw = a[0] == 'c' ? std::stoi(a.substr(1)) : std::stoi(a.substr(1, a.find('.') - 1)); if (aw == w) return true; }
+    return false;
+  }
 
   Runner()
   {
@@ -228,7 +233,7 @@ struct Runner
     const bool fits = it->second->_qw.beginWrite(payload.size() + 4);
     vs::advance = 0;
     if (fits) { std::uint64_t id, clock; memcpy(&id, payload.data(), 8); memcpy(&clock, payload.data() + 8, 8); it->second->addEvent(id, clock, Raw{payload.substr(16)}); }
-    else { deferred.push_back(std::to_string(w) + ".0." + payloadHex); }
+    else { deferred.push_back("a" + std::to_string(w) + ".0." + payloadHex); }
     vs::tid = savedTid; vs::advance = savedAdv;
   }
   void runActs(const std::string& acts)
@@ -236,8 +241,18 @@ struct Runner
     if (acts.empty()) return;
     for (const std::string& a : splitc(acts, ','))
     {
-      if (a[0] == 'c') { const int savedTid = vs::tid; const int w = std::stoi(a.substr(1)); vs::tid = w; writers.erase(w); vs::tid = savedTid; }
-      else { const auto p = splitc(a.substr(1), '.'); addRawInside(std::stoi(p[0]), std::stoull(p[1]), p[2]); }
+      if (a[0] == 'c')
+      {
+        const int w = std::stoi(a.substr(1));
+        if (blocked(w)) { deferred.push_back(a); continue; }
+        const int savedTid = vs::tid; vs::tid = w; writers.erase(w); vs::tid = savedTid;
+      }
+      else
+      {
+        const auto p = splitc(a.substr(1), '.');
+        if (blocked(std::stoi(p[0]))) { deferred.push_back("a" + p[0] + ".0." + p[2]); continue; }
+        addRawInside(std::stoi(p[0]), std::stoull(p[1]), p[2]);
+      }
     }
   }
 
@@ -263,7 +278,11 @@ struct Runner
     const binlog::Session::ConsumeResult r = session.consume(out);
     vs::in_consume = false; vs::hookA = nullptr; vs::hookB = nullptr; vs::advance = 1000000;
     const std::vector<std::string> d = deferred; deferred.clear();
-    for (const std::string& a : d) { const auto p = splitc(a, '.'); addRaw(std::stoi(p[0]), 0, unhex(p[2])); }
+    for (const std::string& a : d)
+    {
+      if (a[0] == 'c') { const int w = std::stoi(a.substr(1)); vs::tid = w; writers.erase(w); }
+      else { const auto p = splitc(a.substr(1), '.'); addRaw(std::stoi(p[0]), 0, unhex(p[2])); }
+    }
     std::ostringstream o; o << 'W';
     for (std::size_t i = 0; i < out.writes.size(); ++i) { if (i) o << ','; o << hex(out.writes[i]); }
     o << ';' << r.bytesConsumed << ',' << r.totalBytesConsumed << ',' << r.channelsPolled << ',' << r.channelsRemoved;
